@@ -2185,9 +2185,12 @@ def convert_squared_difference(op, arch, nng):
             op.name + "_output_multiplier", [1], DataType.int32, [output_multiplier], quantization=identity_quant
         )
 
+        # ifm or ifm2 can be a constant: the intermediate tensors that are cloned from them must not keep its values
+
         # Convert ifm to 32 bit
         ifm_32bit_shifted = ifm.clone(suffix="_ifm_32bit_shifted", set_unique=True)
         ifm_32bit_shifted.dtype = DataType.int32
+        ifm_32bit_shifted.values = None
         ifm_32bit_shifted.quantization = identity_quant
         cast_op = create_cast_op(op.name + "_ifm_32bit_shifted", ifm, ifm_32bit_shifted)
         # Use explicit scaling (multiplier) for the left shift
@@ -2197,6 +2200,7 @@ def convert_squared_difference(op, arch, nng):
         # 32 bit Mul op do not scale the value so the input has to be multiplied with the "multiplier" calculated above
         ifm_scaled = ifm.clone(suffix="_scaled", set_unique=True)
         ifm_scaled.dtype = DataType.int32
+        ifm_scaled.values = None
         ifm_scaled.quantization = identity_quant
         mul_op = Operation(Op.Mul, op.name + "_scaled_input1")
         mul_op.add_input_tensor(ifm_32bit_shifted)
@@ -2210,6 +2214,7 @@ def convert_squared_difference(op, arch, nng):
         # Convert ifm2 to 32 bit
         ifm2_32bit_shifted = ifm2.clone(suffix="_ifm2_32bit_shifted", set_unique=True)
         ifm2_32bit_shifted.dtype = DataType.int32
+        ifm2_32bit_shifted.values = None
         ifm2_32bit_shifted.quantization = identity_quant
         cast_op = create_cast_op(op.name + "_ifm2_32bit_shifted", ifm2, ifm2_32bit_shifted)
         # Use explicit scaling (multiplier) for the left shift
@@ -2219,6 +2224,7 @@ def convert_squared_difference(op, arch, nng):
         # 32 bit Mul op do not scale the value so input has to be multiplied with the "multiplier" calculated above
         ifm2_scaled = ifm2.clone(suffix="_scaled", set_unique=True)
         ifm2_scaled.dtype = DataType.int32
+        ifm2_scaled.values = None
         ifm2_scaled.quantization = identity_quant
         mul_op = Operation(Op.Mul, op.name + "_scaled_input2")
         mul_op.add_input_tensor(ifm2_32bit_shifted)
@@ -2232,6 +2238,7 @@ def convert_squared_difference(op, arch, nng):
         # Calculate the raw diff
         raw_diff = ifm.clone(suffix="_raw_diff", set_unique=True)
         raw_diff.dtype = DataType.int32
+        raw_diff.values = None
         raw_diff.quantization = None
         sub_op = Operation(Op.Sub, op.name + "_raw_diff")
         sub_op.add_input_tensor(ifm_scaled)
@@ -2243,6 +2250,7 @@ def convert_squared_difference(op, arch, nng):
         # Calculate the squared diff
         squared_raw = ifm.clone(suffix="_squared_raw", set_unique=True)
         squared_raw.dtype = DataType.int32
+        squared_raw.values = None
         squared_raw.quantization = None
         mul_op = Operation(Op.Mul, op.name + "_squared_raw")
         mul_op.add_input_tensor(raw_diff)
